@@ -22,14 +22,16 @@ VARIABLES vec
 vars == <<vec>>
 
 UCZ         == {"U", "C", "Z"}
-CertClasses == {"U", "Z", "other", "extra", "fewer"}
+\* "swapped": the configured certificates in the other order; "dup": as many, all the first one (both only
+\* differ from the configured list when there are two certificates)
+CertClasses == {"U", "Z", "other", "extra", "fewer", "swapped", "dup"}
 GoodServers == {"none", "stun", "turn"}
 BadServers  == {"badscheme", "turn-nocred", "turn-badcred", "good+bad"}
 
 Space == { v \in [init : {"default", "explicit"}, pos : {"fresh", "afterSLD", "afterClose"},
                   bundle : UCZ, mux : UCZ, ident : UCZ, certs : CertClasses, pool : UCZ, policy : UCZ,
                   srv : GoodServers \cup BadServers] :
-           ~(v.init = "default" /\ v.certs = "fewer") }   \* one generated certificate: "fewer" would be Z
+           ~(v.init = "default" /\ v.certs \in {"fewer", "swapped", "dup"}) }   \* one generated certificate: "fewer" would be Z
 
 \* what NewPeerConnection leaves in pc.configuration
 InitCfg(init) ==
@@ -51,6 +53,8 @@ ArgOf(v, cur) ==
    certs  |-> CASE v.certs = "U" -> cur.certs [] v.certs = "Z" -> <<>>
                 [] v.certs = "other" -> <<"X">> \o Tail(cur.certs)
                 [] v.certs = "extra" -> cur.certs \o <<"X">>
+                [] v.certs = "swapped" -> [k \in 1..Len(cur.certs) |-> cur.certs[Len(cur.certs) + 1 - k]]
+                [] v.certs = "dup"   -> [k \in 1..Len(cur.certs) |-> cur.certs[1]]
                 [] OTHER             -> Front(cur.certs),
    pool   |-> CASE v.pool = "U" -> cur.pool [] v.pool = "Z" -> 0 [] OTHER -> cur.pool + 1,
    policy |-> CASE v.policy = "U" -> cur.policy [] v.policy = "Z" -> "all" [] OTHER -> Other(cur.policy, "nohost", "relay"),
@@ -111,7 +115,7 @@ ModelClasses ==
   LET cur == InitCfg(vec.init)  arg == ArgOf(vec, cur) IN
   /\ \A f \in {"bundle", "mux", "ident", "pool"} : vec[f] = "U" => ~Attempt(f, arg, cur)
   /\ \A f \in {"bundle", "mux", "ident", "pool"} : vec[f] = "C" => Attempt(f, arg, cur)
-  /\ vec.certs \in {"other", "extra", "fewer"} <=> Attempt("certs", arg, cur)
+  /\ vec.certs \in {"other", "extra", "fewer", "swapped", "dup"} <=> Attempt("certs", arg, cur)
 
 EmitVec == LET r1 == Call1(vec)
                r2 == SetCfg(r1.cfg, ArgOf(vec, r1.cfg), HasLocal(vec), Closed(vec)) IN
